@@ -1069,6 +1069,12 @@ def c11(ctx):
     # "... and the cache holds the same": polls and lookups overlapping their cache writes on a slow cache (real goroutines); at
     # quiescence the document is the one made from the last state
     cov["concurrent_flush_runs"] = cache_order(ctx, 150 if ctx.thorough else 20)
+    # ... with the shipped file cache and the real service: a store started from its cache file polls a newer, shorter version;
+    # store, cache file, a successor store and the file client must all hold it (RoundTrip.tla, journey "newver")
+    results, wdj, _ = ctx.godrive("e2e", "^TestRoundTrip$", env={"VERIF_TRACES": 200 if ctx.thorough else 40, "VERIF_MAXLARGE": 1 << 16}, name="roundtrip-poll", timeout=1700)
+    ctx.take(results, "e2e-roundtrip")
+    okj, nj = validate_journeys(ctx, os.path.join(wdj, "trace.ndjson"), 4)
+    cov["file_cache_journeys"] = okj
     return "model_checking", cov, ["freshness is judged by version number, as the protocol does"]
 
 
